@@ -80,6 +80,46 @@ func gen(c *hx.Ctx) {
 		c.Emit("wc | %s", strings.Join(ps, " / "))
 		c.Count("random")
 	}
+	// F5: 5-9 calls issued at ONE virtual instant on one object (the order in which the runtime runs them is free; the
+	// monitor has to search the interleavings of that instant): either one call per goroutine or 2-3 calls per goroutine
+	oneOp := func() string {
+		switch c.Rng.Intn(8) {
+		case 0, 1:
+			return "C"
+		case 2:
+			return "I"
+		case 3, 4:
+			return fmt.Sprintf("W%d", c.Rng.Pick([]int{-1, 0, 1, 5}))
+		case 5:
+			return "Xn"
+		case 6:
+			return fmt.Sprintf("Xs%d", c.Rng.Pick([]int{0, 5}))
+		default:
+			return fmt.Sprintf("X%c%d", "pe"[c.Rng.Intn(2)], c.Rng.Pick([]int{0, 3}))
+		}
+	}
+	for i := 0; i < c.Budget(200, 4000); i++ {
+		t0 := c.Rng.Pick([]int{0, 0, 3})
+		var ps []string
+		if c.Rng.Bool() {
+			for g := c.Rng.Range(5, 9); g > 0; g-- {
+				ps = append(ps, fmt.Sprintf("%d:%s", t0, oneOp()))
+			}
+		} else {
+			total := c.Rng.Range(5, 9)
+			n := c.Rng.Range(2, 4)
+			per := make([][]string, n)
+			for k := 0; k < total; k++ {
+				g := k % n
+				per[g] = append(per[g], fmt.Sprintf("%d:%s", t0, oneOp()))
+			}
+			for _, p := range per {
+				ps = append(ps, strings.Join(p, " "))
+			}
+		}
+		c.Emit("wc | %s", strings.Join(ps, " / "))
+		c.Count("one_instant")
+	}
 	// L3: stress with real goroutines
 	for i := 0; i < c.Budget(4, 40); i++ {
 		c.Emit("stress %d %d %d", c.Rng.Range(2, 8), c.Budget(2000, 10000), c.Rng.U64()>>1)
